@@ -9,35 +9,49 @@ MANIFEST_TEXT = ("Lean 4 theorems for all process counts, lengths, displacements
                  "compose for arbitrarily nested members; the datatype built for IndexPair is exactly {global index, "
                  "attribute}, for pairs/FieldVector/bigunsignedint all members; the ComposeMPITraits / ComposeMPIOp "
                  "tables of the current sources map every C++ type / functor to the handle the MPI standard defines for "
-                 "it and user functors are registered as non-commutative with the operand order MPI prescribes; "
+                 "it and user functors are registered as non-commutative with the operand order MPI prescribes; the lazily "
+                 "created singletons (one MPI_Op per (element type, functor), one MPI_Datatype per type) are history "
+                 "independent: in the current sources (table re-extracted on every run) every template parameter the "
+                 "creation of a handle depends on selects its static storage, hence after any sequence of calls every call "
+                 "obtains the handle its own create() would have built; "
                  "gather(v)/allgather(v) are the concatenation in rank order (gatherv for any displacement layout: "
                  "the covering segment wins, other cells untouched), scatter(v) hands out the chunks and inverts "
                  "gather(v), broadcast leaves the root's buffer everywhere, stated for every rank; allreduce is, element "
                  "by element, any reduction tree over any permutation (associative-commutative ops) resp. any bracketing "
-                 "in rank order (merely associative user functors) = the rank-order fold; the sequential stand-in, as "
+                 "in rank order (merely associative user functors) = the rank-order fold; with a cell-wise functor every "
+                 "cell of the result is the rank-order fold of that cell, so reducing a FieldVector/std::vector through "
+                 "MPIData's container view (functor on the entries) equals reducing the whole objects; the sequential stand-in, as "
                  "re-translated body by body from the current communication.hh, equals the one-process specification for "
                  "each of its collectives (on the communicated cells for partially communicated types), is rank 0 of 1 and "
                  "refuses point-to-point calls; MPIPack round-trips every sequence of static / size-prefixed / nested "
                  "items and its growth rule leaves room for what MPI_Pack writes; receive with size discovery returns "
                  "the sent elements with the sent length in every ring.  Each run executes the real "
                  "Communication<MPI_Comm>, Communication<No_Comm>, MPIPack, send/recv/rrecv (with and without status) and "
-                 "MPITraits datatypes on 1-4 (thorough 1-7) ranks for 25 element types (all intrinsic types of "
-                 "mpitraits.hh, byte-fallback types, padded and nested pairs, FieldVector of pairs, bigunsignedint<96/40>, "
-                 "IndexPair, ParallelLocalIndex) and compares them with the model and with an oracle computed from the "
-                 "op line.")
+                 "MPITraits datatypes on 1-4 (thorough 1-7) ranks for 27 element types (all intrinsic types of "
+                 "mpitraits.hh, byte-fallback types, padded and nested pairs, FieldVector<int,3/2> and of pairs, "
+                 "bigunsignedint<96/40>, IndexPair, ParallelLocalIndex), single calls and call histories executed in one "
+                 "process (one generic functor such as std::plus<> over several element types, several functors on one "
+                 "type, the members of one template family, arbitrary mixes), and compares them with the model and with "
+                 "an oracle computed from the op line.")
 MANIFEST_NOTE = ("Partial: MPI itself is trusted (a transfer moves the typemap's blocks; reductions fold in some order and "
                  "bracketing for commutative ops, in rank order with some bracketing for non-commutative ones; MPI_Unpack "
                  "inverts MPI_Pack; reliable pairwise-FIFO delivery) - these appear as definitions (transfer, Spec.*, Codec, "
                  "Tree).  The theorems are about the wrapper logic and the message-level specification; model fidelity "
-                 "rests on the translator (type/op tables, user-op registration, every body of the sequential stand-in) and "
+                 "rests on the translator (type/op tables, user-op registration, owner of the static storage of every lazily "
+                 "created handle, every body of the sequential stand-in) and "
                  "on the differential runs (P<=7, lengths <=5, reductions with user functors beyond 10 kB per contribution so that "
                  "MPI's long-message algorithms run).  The sequential stand-in copies whole objects where MPI copies "
                  "only the communicated members (IndexPair, ParallelLocalIndex): agreement is claimed and checked on the "
-                 "communicated state.  Known library issue kept out of the generated inputs: Open MPI 4.1 evaluates "
+                 "communicated state.  Histories start from a fresh process in the model; in a batch the real process has "
+                 "the state left by earlier cases (harmless when the singletons are history independent, which is what the "
+                 "theorem and the differential run establish).  Generic functors are exercised on types without tail "
+                 "padding invisible to MPI; the container views of allreduce(Type&&)/iallreduce with the functors that "
+                 "compile both with and without fixes/C07_reduce_container_op.patch.  Known library issue kept out of the generated inputs: Open MPI 4.1 evaluates "
                  "MPI_MIN/MPI_MAX on MPI_UNSIGNED_LONG with a signed comparison (reproduced with a bare MPI_Allreduce), so "
                  "unsigned long operands of min/max stay below 2^63.")
-TECHNIQUE = ("Lean 4 proof over cell-level model of typemaps, collectives and MPIPack + translator for the type/op tables, the "
-             "user-op registration and the sequential stand-in + MPI differential correspondence with a fold oracle")
+TECHNIQUE = ("Lean 4 proof over cell-level model of typemaps, collectives, MPIPack and the lazily created handle singletons + "
+             "translator for the type/op tables, the user-op registration, the singleton storage and the sequential stand-in + "
+             "MPI differential correspondence (single calls and call histories) with a fold oracle")
 TRANSLATORS = [tr_c07.translate]
 HARNESS = dict(
     sources=["mpi_c07.cc", "pmpi_sched.cc"],
@@ -47,12 +61,17 @@ HARNESS = dict(
     # parallel (78 s -> 23 s wall for 27 element types)
     flags=["-g1", "-flto=8"],
 )
-RULE = ("cases: collective (sum/prod/min/max/user functors incl. associative non-commutative ones in 7 call forms, "
+RULE = ("cases: call history (2-6 op lines of the kinds below executed in one process: one generic functor - std::plus<>, "
+        "std::multiplies<>, std::bit_xor<>, templated min/max/left/right - over 2-4 element types; 2-4 typed functors on one "
+        "element type; typemap decodes and transfers within one template family FieldVector<K,n> / bigunsignedint<k> / "
+        "pair<T1,T2> / byte fallback / index types; any mix; all 27 typemaps in a row) or collective (sum/prod/min/max/user functors incl. associative non-commutative ones in 7 call forms "
+        "+ container views vector<T> / FieldVector object with functors on the entries, "
         "broadcast, gather(v), scatter(v), allgather(v), barrier; blocking, future-based and scalar forms) on world / "
         "MPI_COMM_SELF / sequential stand-in x element type {int,long,double,complex<double>,FieldVector<int,3>,"
         "bigunsignedint<96>,pair<int,char>,pair<long long,char>,IndexPair,ParallelLocalIndex; reduced call set: unsigned "
         "char,short,unsigned short,unsigned,unsigned long,float,long double,complex<float>,complex<long double>,long long,"
-        "POD struct,pair<pair<long long,char>,short>,FieldVector<pair<long long,char>,2>,bigunsignedint<40>} x root x "
+        "POD struct,pair<pair<long long,char>,short>,FieldVector<pair<long long,char>,2>,bigunsignedint<40>,FieldVector<int,2>,"
+        "pair<int,short>} x root x "
         "lengths 0..5 (just beyond 10 kB per contribution, 650..2900 elements, for a share of the user-functor reductions; rank dependent for the v-variants, "
         "displacement layouts compact/gaps/reversed/overlapping reads) with boundary values; point-to-point rings "
         "(isend/recv/rrecv/irecv, scalar/vector/string, with and without MPI_Status); MPIPack histories (0..6 items: scalar, "
@@ -65,7 +84,7 @@ ASSUMPTIONS = [
     "contributions in some order/bracketing, with non-commutative ops in rank order with some bracketing, MPI_Unpack "
     "inverts MPI_Pack, delivery is reliable and pairwise FIFO",
     "the Lean model lean/DuneVerif/Model/C07.lean is hand-written at cell level (one cell per scalar member); the type and "
-    "op tables, the user-op registration and the bodies of the sequential stand-in are re-translated from the sources on "
+    "op tables, the user-op registration, the storage of the lazily created handles and the bodies of the sequential stand-in are re-translated from the sources on "
     "every run (lean/DuneVerif/Gen/C07.lean); the rest of its fidelity to mpicommunication.hh / mpipack.hh / mpidata.hh / "
     "mpitraits.hh rests on this differential run",
     "reductions are exercised without signed overflow (sums bounded by MAX/8 per rank etc.); floating-point types hold "
@@ -73,10 +92,15 @@ ASSUMPTIONS = [
     "collectives are called within their documented preconditions (matching send/receive counts, non-overlapping gatherv "
     "segments, root < P)",
     "non-blocking variants are observed after get()/wait(); the future protocol itself belongs to C19",
+    "generic functors (one functor type for several element types) are default-constructible and stateless, as "
+    "Generic_MPI_Op requires of every functor; they are applied to element types without tail padding invisible to MPI",
+    "the MPIData-based reductions allreduce(Type&&)/iallreduce on containers (std::vector, FieldVector object) behave as "
+    "after fixes/C07_reduce_container_op.patch: the functor is applied to the entries",
     "process counts 1-4 (quick) / 1-7 (thorough), lengths 0..5 (user-functor reductions up to 2900 elements)",
 ]
-TRUSTED = ["mpicxx/libstdc++, ASan/UBSan, Open MPI 4.1", "harness/mpi_c07.cc (cell conversion, oracle) + Driver/C07.lean parsing/printing",
-           "harness/pmpi_sched.cc", "tools/translators/tr_c07.py (statement grammar for the stand-in's bodies)"]
+TRUSTED = ["mpicxx/libstdc++ (-O1 -flto), ASan/UBSan, Open MPI 4.1", "harness/mpi_c07.cc (cell conversion, oracle) + Driver/C07.lean parsing/printing",
+           "harness/pmpi_sched.cc", "tools/translators/tr_c07.py (statement grammar for the stand-in's bodies; recognition of the three storage shapes "
+           "static data member / function-local static / reference to a variable (template))"]
 CORPUS_TIMEOUT = 600
 
 
